@@ -1,5 +1,6 @@
 import N2k.Lemmas.ClaimReport
 import N2k.Lemmas.SendGate
+import N2k.Lemmas.ClaimRxSlot
 /-!
 # C03 — Address claiming converges to unique addresses and the lower NAME wins
 
@@ -18,7 +19,8 @@ fast-packet PGN, nodes are claimants (NodeOnly/ListenAndNode), NAMEs are 64-bit 
 and announces every device when it opens.
 
 What is proved for arbitrary `n` and every interleaving is *safety*: uniqueness at every quiescent reachable
-state, the arbitration decision, the report of every own-address change. Liveness (a quiescent state is reached)
+state, the arbitration decision, the report of every own-address change; `C03_claim_not_lost` discharges the
+hypothesis "a delivered claim reaches the handler" whenever a receive slot is free or recyclable. Liveness (a quiescent state is reached)
 is NOT proved: `C03_converges_partial` gives the per-device progress measure only; the harness explores
 convergence by search.
 -/
@@ -226,6 +228,63 @@ theorem C03_converges_partial (x : Inst) (ok : LibOK x) (i : Nat) (d : Dev) (hd 
   · exact Or.inl h254
   · right; simp only [p.endSame]; exact p.progress hs he h254
 
+/-! ## the receive slots in front of the claim handler; a device without an address stays silent -/
+
+open N2k.ClaimRx in
+/-- **C03_claim_not_lost.** The bus theorems assume that a delivered claim frame reaches `HandleISOAddressClaim`.
+In the library it first needs a receive slot. If `FindFreeCANMsgIndex` finds one — a slot is free, or the oldest
+unfinished message is at least 100 ms old *modulo 2^32* (`Rx.findFree`, the C02 model, across the clock wrap too) —
+`ParseMessages` handles the claim exactly as `Claim.parse` does. -/
+theorem C03_claim_not_lost (n : Node) (f : Frame) (hp : (rawOf f).pgn = 60928) (hlen : f.len ≤ 8)
+    (hslot : Rx.findFree n.rx n.inst.s.now (rawOf f) < n.rx.N) :
+    (parseFrame n f).inst = parse n.inst [.frame f] := by
+  unfold parseFrame
+  by_cases hr : readsBus n.inst = true
+  · rw [if_pos hr]
+    have h := (rx_claim n.rx n.inst.s.now (rawOf f) hp (rawOf_wf f hlen)).1 hslot
+    cases hres : (Rx.rx cfg n.rx n.inst.s.now (rawOf f)).2 with
+    | none => rw [hres] at h; cases h
+    | some m => simp only [hres]
+  · rw [if_neg hr]
+    have hr' : readsBus n.inst = false := by simpa using hr
+    exact (parse_not_reading n.inst hr' _).symm
+
+open N2k.ClaimRx in
+/-- **C03_claim_lost_without_slot.** The hypothesis of `C03_claim_not_lost` is needed: when `FindFreeCANMsgIndex`
+finds no slot (every receive slot holds an unfinished message younger than 100 ms) the claim frame is dropped, the
+instance behaves as if nothing had been received and the receive slots are unchanged. Five concurrent unfinished
+fast-packet talkers are outside the property's quantifier (buses of claimants) and beyond the slot count C02 demands
+delivery for: an observation, not a finding (replay in `notes/C03_rx_slots_busy_observation.md`). -/
+theorem C03_claim_lost_without_slot (n : Node) (f : Frame) (hp : (rawOf f).pgn = 60928) (hlen : f.len ≤ 8)
+    (hno : ¬ Rx.findFree n.rx n.inst.s.now (rawOf f) < n.rx.N) :
+    (parseFrame n f).inst = parse n.inst [] ∧ (parseFrame n f).rx = n.rx := by
+  unfold parseFrame
+  by_cases hr : readsBus n.inst = true
+  · rw [if_pos hr, (rx_claim n.rx n.inst.s.now (rawOf f) hp (rawOf_wf f hlen)).2 hno]
+    exact ⟨rfl, rfl⟩
+  · rw [if_neg hr]; exact ⟨rfl, rfl⟩
+
+open N2k.ClaimRx in
+/-- the same for a commanded address: if the TP.CM (BAM/RTS) frame gets a session slot, the reassembled message is
+handled exactly as `Claim.parse` handles it -/
+theorem C03_commanded_not_lost (n : Node) (dst nm a : Nat) (hr : readsBus n.inst = true)
+    (hslot : Rx.findFirst (Rx.rx cfg n.rx n.inst.s.now (cmdOpenFrame dst)).1 (Rx.tpMatchP 65240 toolAddr dst)
+        (Rx.rx cfg n.rx n.inst.s.now (cmdOpenFrame dst)).1.N 0 < (Rx.rx cfg n.rx n.inst.s.now (cmdOpenFrame dst)).1.N) :
+    (parseCmd n dst nm a).inst = parse n.inst [.cmd dst nm a] := by
+  unfold parseCmd
+  simp only [hr, ↓reduceIte, hslot]
+
+/-- **C03_null_address_silent.** A device that could not claim an address (any address above 251) transmits nothing
+but address claims, whatever source the application left in the message: the application's `SendMsg` of any other
+PGN returns false and hands nothing to the driver or the send queue. -/
+theorem C03_null_address_silent (x : Inst) (ho : x.s.openState = 3) (m : Msg) (i : Nat) (d0 : Dev)
+    (hd : x.s.devs[i]? = some d0) (hsrc : d0.source > 251) (hp : m.pgn ≠ 60928) :
+    (ClaimRx.appSend x m (some i)).2 = false ∧ (ClaimRx.appSend x m (some i)).1.s.drv = x.s.drv ∧
+    (ClaimRx.appSend x m (some i)).1.s.ring = x.s.ring := by
+  unfold ClaimRx.appSend
+  simp only [ho, ↓reduceIte]
+  exact ClaimRx.null_address_silent x.s m i d0 hd hsrc hp
+
 /-! ## non-vacuity: a concrete bus satisfying the hypotheses, and a contested run -/
 
 def demoLib (src name : Nat) : BNode := ⟨.lib (mkInst .t32 4294967000 1 40 [(src, name)]), []⟩
@@ -302,6 +361,34 @@ example (c c' : Iso.Claim) (hc : c ∈ claimants ((run demoBus demoEvs).node 0).
 def demoOpen : Inst := { mkInst .t64 1000 2 40 [(251, 0x300), (0, 0x200)] with s := { (mkInst .t64 1000 2 40 [(251, 0x300), (0, 0x200)]).s with openState := 3 } }
 example : findSourceDev demoOpen.s.devs 251 = some 0 ∧ demoOpen.s.openState = 3 := by decide
 example : ((handleClaim demoOpen 251 0x100).s.devs.map (·.source), (handleClaim demoOpen 251 0x100).addressChanged) = ([1, 0], true) := by
+  decide
+
+/-- witness that the slot hypothesis is needed (`C03_claim_lost_when_slots_busy`): five talkers started a fast-packet message 10 ms ago; the lower NAME
+0x100 claims 251, which device 0 (NAME 0x300) holds: the claim is dropped, the device keeps 251 and says nothing;
+with one slot free the same claim makes it move on to 1 -/
+def busySlot : Rx.Slot := ⟨false, 129029, 40, 255, 3, false, 0, 43, [1, 2, 3, 4, 5, 6], 990, []⟩
+def demoBusy : ClaimRx.Node := ⟨demoOpen, ⟨5, fun _ => busySlot⟩⟩
+def demoOneFree : ClaimRx.Node := ⟨demoOpen, ⟨5, fun i => if i = 3 then Rx.emptySlot else busySlot⟩⟩
+
+theorem C03_claim_lost_when_slots_busy :
+    ¬ Rx.findFree demoBusy.rx demoBusy.inst.s.now (ClaimRx.rawOf (frameOfClaim (0x100, 251))) < demoBusy.rx.N ∧
+    ((ClaimRx.stepFrame demoBusy (frameOfClaim (0x100, 251))).1.inst.s.devs.map (·.source),
+     (ClaimRx.stepFrame demoBusy (frameOfClaim (0x100, 251))).2) = ([251, 0], []) ∧
+    (ClaimRx.stepFrame demoOneFree (frameOfClaim (0x100, 251))).1.inst.s.devs.map (·.source) = [1, 0] := by decide
+
+/-- hypotheses of `C03_claim_not_lost` are satisfiable: one slot free; and all slots taken but the oldest message
+stamped 2 s before the 32-bit wrap, the claim arriving after it (recyclable modulo 2^32) -/
+example : Rx.findFree demoOneFree.rx demoOneFree.inst.s.now (ClaimRx.rawOf (frameOfClaim (0x100, 251))) < demoOneFree.rx.N := by
+  decide
+def staleSlot : Rx.Slot := { busySlot with msgTime := 4294965296 }
+def demoWrap : ClaimRx.Node :=
+  ⟨{ demoOpen with s := { demoOpen.s with now := 4294967296 + 500 } }, ⟨5, fun _ => staleSlot⟩⟩
+example : Rx.findFree demoWrap.rx demoWrap.inst.s.now (ClaimRx.rawOf (frameOfClaim (0x100, 251))) < demoWrap.rx.N ∧
+    (ClaimRx.stepFrame demoWrap (frameOfClaim (0x100, 251))).1.inst.s.devs.map (·.source) = [1, 0] := by decide
+
+/-- witness for `C03_null_address_silent`: device 0 at 254, the caller's message carries source 15 -/
+def demoNull : Inst := { demoOpen with s := { demoOpen.s with devs := demoOpen.s.devs.set 0 (mkDev .t64 254 0x300) } }
+example : (ClaimRx.appSend demoNull { prio := 2, pgn := 127488, src := 15, dst := 255, len := 8, data := [1,2,3,4,5,6,7,8] } (some 0)).2 = false := by
   decide
 
 end N2k.C03
